@@ -20,14 +20,14 @@ RULE = ('hostile scripts: in each victim state (contact header not yet sent by t
         '(role, script).')
 COMPONENTS = tc.COMPONENTS
 PROBES = ('hostile.pre-session', 'hostile.unknown-id', 'hostile.no-transfer', 'hostile.unknown-type', 'hostile.bad-contact',
-          'hostile.other', 'probe.victim_transfer_completed', 'probe.followup_processed', 'probe.queued_before_session', 'probe.final_ack_while_in_progress', 'probe.final_ack_while_queued', 'probe.refuse_own_queued', 'probe.refuse_own_unstarted', 'probe.hostile_while_ending')
+          'hostile.other', 'probe.victim_transfer_completed', 'probe.followup_processed', 'probe.queued_before_session', 'probe.final_ack_while_in_progress', 'probe.final_ack_while_queued', 'probe.refuse_own_queued', 'probe.refuse_own_unstarted', 'probe.hostile_while_ending', 'probe.unsolicited_term_reply', 'probe.crossing_sess_term')
 ASSUMPTIONS = ['the reject/terminate/close clause is demanded only for the message classes the statement lists; for other hostile '
                'input only: no escaped exception, no mixed data, own transfers unharmed']
 CHUNK = 20
 BUDGET = {'quick': 40, 'thorough': 600}
 
 #: message classes named in the statement: the victim must answer with MSG_REJECT, SESS_TERM or close
-LISTED = {'pre-session', 'no-transfer', 'unknown-id', 'unknown-type', 'bad-contact'}
+LISTED = {'pre-session', 'no-transfer', 'unknown-id', 'unknown-type', 'bad-contact', 'unsolicited-term-reply'}
 
 
 def _hostile(ch, state):
@@ -40,7 +40,7 @@ def _hostile(ch, state):
         cls = 'pre-session' if what in ('seg-start', 'seg-mid', 'ack', 'refuse', 'term') else 'other'
         return dict(cls=cls, what=what, tid=ch.pick('tid', 5))
     what = ch.choice('est', ('seg-mid-none', 'seg-end-none', 'seg-foreign', 'ack-unknown', 'refuse-unknown', 'ack-unknown',
-                             'init-again', 'keepalive', 'reject', 'start-nested', 'unknown-type', 'ack-own-end', 'ack-own-end'))
+                             'init-again', 'keepalive', 'reject', 'start-nested', 'unknown-type', 'ack-own-end', 'ack-own-end', 'term', 'term-reply'))
     cls = {'seg-mid-none': 'no-transfer', 'seg-end-none': 'no-transfer', 'seg-foreign': 'no-transfer',
            'ack-unknown': 'unknown-id', 'refuse-unknown': 'unknown-id', 'unknown-type': 'unknown-type'}.get(what, 'other')
     return dict(cls=cls, what=what, tid=1000 + ch.pick('tid', 5), mid=ch.choice('unk', (0x08, 0x7F, 0xFF, 0x00)))
@@ -136,6 +136,8 @@ def _encode_hostile(msg, cur_tid=None):
         return rfc9174.encode(dict(kind='XFER_REFUSE', reason=1, transfer_id=tid))
     if what == 'term':
         return rfc9174.encode(dict(kind='SESS_TERM', flags=0, reason=0))
+    if what == 'term-reply':
+        return rfc9174.encode(dict(kind='SESS_TERM', flags=1, reason=0))
     if what == 'keepalive':
         return rfc9174.encode(dict(kind='KEEPALIVE'))
     if what == 'reject':
@@ -209,6 +211,16 @@ def _do_hostile(run, har, msg, state):
             run.stats['probe.final_ack_while_in_progress'] = 1
         data = rfc9174.encode(dict(kind='XFER_ACK', flags=1, transfer_id=tid, length=size))
     else:
+        if msg['what'] in ('term', 'term-reply') and msg['cls'] == 'other':
+            own_term = any(vmsg['kind'] == 'SESS_TERM' for vmsg in har.vmsgs)
+            if msg['what'] == 'term-reply' and not own_term:
+                # a reply to a SESS_TERM that was never sent: out of place, to be answered by ending the session (or a reject)
+                msg = dict(msg, cls='unsolicited-term-reply')
+                run.stats['probe.unsolicited_term_reply'] = 1
+            elif msg['what'] == 'term' and own_term:
+                # the peer's own SESS_TERM crosses the victim's (both end the session at once)
+                run.stats['probe.crossing_sess_term'] = 1
+            state['peer_term'] = True
         data = _encode_hostile(msg)
     har.deliver(data)
     # the answer may be queued behind output that a full socket buffer holds back: read until the victim is silent
